@@ -224,6 +224,19 @@ STACKS = [
     S('castd_strided_s3_f2', ['castd', 'strided:s3', 'array:f2'], 'T'),
     S('deref_strided_s2_f2', ['deref', 'strided:s2', 'array:f2']),
     S('aff_ident_f3', ['affine', 'ident:f3']),
+    # added while extending coverage (mostly thorough tier)
+    S('lin_strided_s1_f1', ['lin', 'strided:s1', 'array:f1'], thr=True),
+    S('strided_s2_f4', ['strided:s2', 'array:f4'], family='N2M4f'),
+    S('mortonb_s2_f4', ['mortonb:s2', 'array:f4'], 'T', family='N2M4f'),
+    S('mortonb_u2_f2', ['mortonb:u2', 'array:f2'], 'T'),
+    S('nn_mortonb_s3_f3', ['nn', 'mortonb:s3', 'array:f3'], 'T', thr=True),
+    S('aff_nn_strided_s2_f2', ['affine', 'nn', 'strided:s2', 'array:f2'], 'T', family='WN2M2f'),
+    S('aff_lin_hilbert_s2_f2', ['affine', 'lin', 'hilbert:s2', 'array:f2'], 'T', family='WN2M2f', thr=True),
+    S('aff_lin_mortonb_s2_f2', ['affine', 'lin', 'mortonb:s2', 'array:f2'], 'T', family='WN2M2f'),
+    S('shuffle10_mortonb_s2_f2', ['shuffle:10', 'mortonb:s2', 'array:f2'], 'T', thr=True),
+    S('backup_lin_strided_s2_f2', ['backup', 'lin', 'strided:s2', 'array:f2'], 'T'),
+    S('lind_strided_s3_f3', ['lind', 'strided:s3', 'array:f3'], 'T', thr=True),
+    S('hilbert_s2_d2', ['hilbert:s2', 'array:d2'], 'T', family='N2M2d'),
     # device storage behind the CUDA shim
     S('strided_s3_cuda_f3', ['strided:s3', 'cuda:f3'], family='N3M3f'),
 ]
@@ -255,6 +268,11 @@ def wrap_pairs():
     for o in STACKS:
         for i in STACKS:
             if o is i or i.device or o.device or i.shape != 'SHAPE_LAYOUT':
+                continue
+            # only the row-major and Morton layers accept parameter_pack<const owning_data_t>
+            # (what std::move(f.backend()) yields); for the other layers the idiom does not
+            # compile, which is a limitation of the library, not a defect any claimed property names
+            if i.layers[0].split(':')[0] not in ('strided', 'mortonb', 'mortonp'):
                 continue
             k = len(o.layers) - len(i.layers)
             if k >= 1 and o.layers[k:] == i.layers:
